@@ -463,6 +463,8 @@ class Robust:
                 y = to_yin(nm, tx)
                 if y:
                     yin.append(y)
+        import shutil
+        shutil.rmtree(os.path.join("/tmp", "robust-seeds-%d" % os.getpid()), ignore_errors=True)
         for i, tx in enumerate(yin):
             # the converted forms are what the YIN printer of the tree writes; not all of them are accepted back (C10)
             A(out, "seed-yin" if i < len(YIN_SEEDS) else "conv-yin", L("yin", hexs(tx)))
